@@ -30,6 +30,9 @@ type Family struct {
 	MaxWorkers int
 	// HangSeconds overrides the no-progress watchdog (default 120).
 	HangSeconds int
+	// FatalPerCase makes the signature of a fatal (process-killing) case include its choice sequence,
+	// so that known findings identify individual cases instead of the whole family.
+	FatalPerCase bool
 	// MemMB overrides the per-worker address space cap hint (informational; enforced via GOMEMLIMIT-style checks in harnesses).
 	Body func(c *Ctx)
 	// Doc is a one-line description copied into the evidence.
